@@ -51,6 +51,8 @@ def item_text(it):
 def sugared_text(case):
     lines = []
     for r in case["rules"]:
+        if r.get("action"):
+            lines.append("@" + r["action"])      # applies to this rule, not to the rules generated for its groups
         lines.append("%s: %s;" % (r["name"], " | ".join(
             " ".join(item_text(x) for x in seq) if seq else "EMPTY" for seq in r["alts"])))
     lines.append("terminals")
@@ -135,6 +137,8 @@ class Expansion:
                 lines.append("@collect_sep" if k[1] else "@collect")
             elif k and k[0] == "?":
                 lines.append("@optional")
+            elif self.rule_action().get(n):
+                lines.append("@" + self.rule_action()[n])
             alts = []
             for idx, r in g.by_lhs[n]:
                 body = " ".join(r) if r else "EMPTY"
@@ -146,6 +150,9 @@ class Expansion:
         for t in self.case["terms"]:
             lines.append("%s: '%s';" % (t, t))
         return "\n".join(lines) + "\n"
+
+    def rule_action(self):
+        return {r["name"]: r.get("action") for r in self.case["rules"]}
 
     def actions(self):
         acts = {}
@@ -171,6 +178,8 @@ class Expansion:
             return tuple(sub[0]) if sub else ()
         if k and k[0] == "?":
             return sub[0] if sub else None
+        if self.rule_action().get(lhs) == "pass_single":
+            return sub[0]          # parglare.actions.pass_single: the first sub-result
         return sub[0] if len(sub) == 1 else tuple(sub)
 
 
@@ -495,6 +504,8 @@ def sugar_cases(draw):
     for i, n in enumerate(names):
         alts = [seq(0, 1 if i == 0 else 0) for _ in range(draw(st.integers(1, 2)))]
         rules.append({"name": n, "alts": alts})
+        if i == 0 and draw(st.integers(0, 3)) == 0:
+            rules[-1]["action"] = "pass_single"     # a built-in action named by a decorator (S has no empty alternative)
     return {"rules": rules, "terms": terms, "max_len": 5 if nterms <= 2 else 4}
 
 
